@@ -144,6 +144,21 @@ func (state *RuntimeState) idpOpenIDCGetClientConfig(client_id string) (*OpenIDC
 	return nil, ErrorIDPClientNotFound
 }
 
+// hostnameInDomain returns true if hostname is domain or a subdomain of it. A
+// bare suffix match is not enough: "evilexample.com" ends with "example.com".
+func hostnameInDomain(hostname string, domain string) bool {
+	if domain == "" {
+		return false
+	}
+	if hostname == domain {
+		return true
+	}
+	if strings.HasPrefix(domain, ".") {
+		return strings.HasSuffix(hostname, domain)
+	}
+	return strings.HasSuffix(hostname, "."+domain)
+}
+
 // https://tools.ietf.org/id/draft-ietf-oauth-security-topics-10.html states
 // that redirects MUST be exact matches.
 // We allow our users to be less strict (for facilitation of internal deployments).
@@ -189,7 +204,7 @@ func (client *OpenIDConnectClientConfig) CanRedirectToURL(redirectUrl string) (b
 	}
 	matchedDomain := false
 	for _, domain := range client.AllowedRedirectDomains {
-		matched := strings.HasSuffix(parsedURL.Hostname(), domain)
+		matched := hostnameInDomain(parsedURL.Hostname(), domain)
 		if matched {
 			matchedDomain = true
 			break
@@ -208,7 +223,7 @@ func (client *OpenIDConnectClientConfig) CorsOriginAllowed(origin string) (bool,
 		return false, nil
 	}
 	for _, domain := range client.AllowedRedirectDomains {
-		matched := strings.HasSuffix(parsedURL.Hostname(), domain)
+		matched := hostnameInDomain(parsedURL.Hostname(), domain)
 		if matched {
 			return true, nil
 		}
@@ -240,7 +255,7 @@ func (state *RuntimeState) idpOpenIDCGenericIsCorsOriginAllowed(origin string) (
 	}
 	for _, client := range state.Config.OpenIDConnectIDP.Client {
 		for _, domain := range client.AllowedRedirectDomains {
-			matched := strings.HasSuffix(parsedURL.Hostname(), domain)
+			matched := hostnameInDomain(parsedURL.Hostname(), domain)
 			if matched {
 				return true, nil
 			}
